@@ -63,7 +63,7 @@ static void desc_set_root(sdesc *d, const unsigned char *root, size_t n) {
 /* ------------------------------------------------------------------ canonical signatures */
 /* form (tail), first level correction, start level at which the signature's document hash is the root of its local chain
  * (-1: never), single aggregation chain */
-static const int CAN_FORM[NCAN] = {0, 1, 2, 3}, CAN_LC[NCAN] = {3, 7, 3, 3}, CAN_PL[NCAN] = {0, 3, 0, -1}, CAN_SINGLE[NCAN] = {1, 0, 0, 0};
+static const int CAN_FORM[NCAN] = {0, 1, 2, 3}, CAN_LC[NCAN] = {1, 4, 3, 3}, CAN_PL[NCAN] = {0, 3, 0, -1}, CAN_SINGLE[NCAN] = {1, 0, 0, 0};
 typedef struct { rsig model; sdesc d; rs_chain local; } canon_t;
 static canon_t CAN[NCAN];
 static int canon_ready;
